@@ -108,7 +108,7 @@ func genVest(g *Gen, n int) {
 		owners := []string{vaddr(0), vaddr(1), keyedAddr(0)}
 		fresh := 3
 		den := "uc4e"
-		if g.chance(0.2) {
+		if g.forceDenom || g.chance(0.2) {
 			// the vesting denom is changed by governance before any pool exists
 			den = "uvest"
 			g.emit("v.updateDenom gov %s", den)
@@ -167,7 +167,7 @@ func genVest(g *Gen, n int) {
 		// scenario starts with an owner whose pools mature in an order different from their creation
 		// order and is withdrawn in between; every 4th+1 with a vesting-account owner asking for a
 		// pool above its spendable balance (bank transfer fails after the pre-check passed)
-		switch sc % 4 {
+		switch (sc + g.shape) % 4 {
 		case 0:
 			o := vaddr(8)
 			owners = append(owners, o)
@@ -222,6 +222,23 @@ func genVest(g *Gen, n int) {
 				cvas = append(cvas, vaddr(fresh))
 			}
 			g.count("shape/long-vesting-type")
+		case 3:
+			// lock ends beyond what fits into int64 nanoseconds since 1970 (year 2262): a valid
+			// duration of 236..292 years; nothing may be withdrawable before
+			o := vaddr(8)
+			owners = append(owners, o)
+			g.emit("v.fund %s [%s=%s]", o, den, "1000000000000000000000000000")
+			years := int64(240 + g.intn(50))
+			amt := g.logBig(6 + g.intn(14))
+			g.emit("v.createPool %s far %s %d %s", atok(o), amt, years*365*86400*sec, vts[0])
+			pools = append(pools, gPool{o, "far", now + years*365*86400*sec, amt, vts[0]})
+			g.emit("v.q.pools %s", o)
+			g.emit("v.withdraw %s", atok(o))
+			now += g.pickI(sec, 86400*sec, 400*86400*sec)
+			g.emit("v.time %d", now)
+			g.emit("v.q.pools %s", o)
+			g.emit("v.withdraw %s", atok(o))
+			g.count("shape/far-future-lock-end")
 		}
 		nops := 6 + g.intn(20)
 		for i := 0; i < nops; i++ {
